@@ -159,6 +159,10 @@ def finish(bld, container_geom, lat_cell, fill_of_container, trcl=None,
     deck.cells.append(M.Cell(900, mat=0, geom=M.S(WORLD_SURF), imp={'n': '0'}))
     deck.cells.sort(key=lambda c: (c.u is not None, c.id))
     deck.surfs.sort(key=lambda s: s.id)
+    if bld.rng.random() < 0.25:
+        # the order of the cards inside a block is free in MCNP
+        bld.rng.shuffle(deck.surfs)
+        deck.tags.add('cards.unordered')
     return deck
 
 
